@@ -947,7 +947,7 @@ Qed.
 
 (* the exception classes of exec_bf2instrs that emit_bf3comp turns into Bf3FileFormatError *)
 Lemma emit_catches : caught_emit EOverflow = true /\ caught_emit EValue = true /\
-  caught_emit EIndex = true /\ caught_emit EKey = true /\ caught_emit EType = false.
+  caught_emit EIndex = true /\ caught_emit EKey = true /\ caught_emit EType = true.
 Proof. repeat split. Qed.
 
 (* a header line named "load" is refused by the parser *)
